@@ -137,6 +137,8 @@ def escapes(p: Path, e: Event, *, value_kinds: Optional[Dict[str, str]] = None) 
             if isinstance(b, Const) and b.value:
                 continue
             why = "division by a possibly zero value"
+        elif op == "hash":
+            why = f"{d.get('what', 'hashing')} with a key that may be unhashable ({operands[0].key()[:50]}): TypeError"
         elif op == "sorted":
             why = f"sorted() over elements of unknown kinds ({operands[0].key()[:50]}): unorderable members raise TypeError"
         elif op in ("min", "max"):
